@@ -29,6 +29,8 @@ struct Env {
     std::vector<int> prefix;          // alternatives to replay for the current operation
     std::vector<std::string> prefix_labels; // optional: labels expected while replaying (determinism guard)
     std::vector<Choice> choices;      // what was asked during the current operation
+    std::map<std::string,int> labelmap; // answers by label (lock-step mode: same answers for every configuration)
+    bool use_labels = false;
     bool recording = false;           // false while replaying the history prefix operations with full tapes
     // ---- configuration of deviation points ----
     bool faults = false;              // callback positions may throw
@@ -62,7 +64,11 @@ struct Env {
     int choose(const std::string& label, int n, char kind) {
         size_t pos = choices.size();
         int c = 0;
-        if (pos < prefix.size()) {
+        if (use_labels) {
+            auto it = labelmap.find(label);
+            if (it != labelmap.end()) c = it->second;
+            if (c >= n || c < 0) throw Nondeterminism{"choice " + label + " arity " + std::to_string(n) + " but answer " + std::to_string(c)};
+        } else if (pos < prefix.size()) {
             c = prefix[pos];
             if (c >= n || c < 0) throw Nondeterminism{"choice " + label + " arity " + std::to_string(n) + " but tape says " + std::to_string(c)};
             if (pos < prefix_labels.size() && prefix_labels[pos] != label)
